@@ -20,6 +20,7 @@ package harness
 //                                    mut ∈ {-, val, pow, fake}: altered value / power / invented report
 //   addfee <acct> <id> <amt> <bond01>  vote <acct> <id> <s|a|i>  wfr <acct> <payer> <id>  claim <acct> <id>
 //   evid <acct> <id> <R>             MsgAddEvidence
+//   blk <ms> [abs=v1,..] [ns=<n>] [dsign=v1,..]   a block after <ms> (+ n ns); validators that do not vote; double-sign evidence
 //   sunjail <val>                    x/slashing MsgUnjail by the validator's operator (after `blk … abs=<val>` downtime)
 //   gov <kind> <args…>               a governance proposal carrying the privileged message, voted by all validators:
 //        mintinit | cyclelist <q,q,…> | oparams <minStake> | snaplimit <n> | spec <type> <window>
@@ -208,6 +209,14 @@ func (h *Hist) Exec(op string) *BlockResult {
 			if strings.HasPrefix(x, "ns=") {
 				if n, err := strconv.ParseInt(x[3:], 10, 64); err == nil {
 					bo.Dt += time.Duration(n)
+				}
+			}
+		}
+		for _, x := range f[2:] { // blk <ms> dsign=v1: double-sign evidence against these validators (slashed 5 %, tombstoned)
+			if strings.HasPrefix(x, "dsign=") {
+				bo.DoubleSign = map[string]bool{}
+				for _, n := range strings.Split(x[6:], ",") {
+					bo.DoubleSign[n] = true
 				}
 			}
 		}
